@@ -217,7 +217,7 @@ func init() {
 			rule:        "histories of Write/ReadFrom (chunk and fault plans)/Parse/Shrink/Reset (nil, copy path, aliasing path, huge capacity, oversize) mixed with ReadAt/PeekAt/ByteAt probes at Off-1, Off, Off+len-1, Off+len, Off+len+1, the parse position and random offsets with read sizes 0, 1, exact and beyond, on a bare lz.ParserBuffer and on all 7 parsers; a byte-list model (fed bytes, sum of Shrink results, parse position) decides counts, errors and bytes; after every mutating operation the whole retained range is read back and compared; non-trivial iff the history has probes and a Shrink that discarded bytes; distinct = distinct concrete case",
 			assumptions: []string{"after a failed Reset(data) the harness re-synchronises with Reset(nil) instead of assuming the old state survives", "ShrinkSize == BufferSize is rejected by Verify in this tree and therefore not reachable"},
 			mandatory:   []string{"content_checks", "probe_ok", "probe_out_of_buffer", "probe_end_of_buffer", "byteat_at_end", "write_full", "readfrom_full", "readfrom_reader_error", "shrink_boundary_probed", "reset_oversize_rejected", "reset_mode2", "reset_mode3", "wrap:refills", "wrap:shrink_discarding"}},
-		types: types, quickN: 12000, thorMul: 80, corpusN: 300, large: true,
+		types: types, quickN: 12000, thorMul: 40, corpusN: 300, large: true,
 		weights: HWeights{Write: 16, ReadFrom: 14, Parse: 18, ParseNTL: 4, ParseNil: 4, Shrink: 14, Reset: 1, ResetData: 6, Probe: 40, WParse: 8, Faults: true},
 		newObs: func(pc *PCase, ps *PState, c *core.Case, st *core.Stats) histObserver {
 			return &c15obs{cr: commonReach{st: st}, st: st}
